@@ -536,6 +536,7 @@ func (sc *SyncerCmd) runCluster(runWait usync.WaitCloser, cli cluster.Cluster, c
 			key := fmt.Sprintf("%s/%s/input-election/%s/", config.NamespacePrefixKey, config.GetSyncerConfig().Cluster.GroupName, shardKey)
 			elect := cli.NewElection(runWait.Context(), key, config.GetSyncerConfig().Server.ListenPeer)
 			role := cluster.RoleCandidate
+			var leaseFrom time.Time // when the campaign that made this instance the leader was sent
 
 			for !runWait.IsClosed() {
 
@@ -554,6 +555,7 @@ func (sc *SyncerCmd) runCluster(runWait usync.WaitCloser, cli cluster.Cluster, c
 
 				// campaign
 				if role == cluster.RoleCandidate {
+					leaseFrom = time.Now()
 					newRole, err := sc.clusterCampaign(runWait.Context(), elect)
 					if err != nil {
 						sc.logger.Errorf("campaign error : key(%s), err(%v)", key, err)
@@ -566,6 +568,12 @@ func (sc *SyncerCmd) runCluster(runWait usync.WaitCloser, cli cluster.Cluster, c
 					if role == cluster.RoleCandidate {
 						runWait.Sleep(1 * time.Second)
 					}
+					continue
+				}
+
+				if role == cluster.RoleLeader && time.Since(leaseFrom) >= sc.leaseHold() {
+					// the answer came too late to lead on this lease, campaign again
+					role = cluster.RoleCandidate
 					continue
 				}
 
@@ -596,7 +604,7 @@ func (sc *SyncerCmd) runCluster(runWait usync.WaitCloser, cli cluster.Cluster, c
 				}, func(i interface{}) { syncerWait.Close(fmt.Errorf("panic : %v", i)) })
 
 				// ticker
-				sc.clusterTicker(syncerWait, role, elect, cfg.Input.Address(), key)
+				sc.clusterTicker(syncerWait, role, elect, cfg.Input.Address(), key, leaseFrom)
 
 				// wait
 				sy.Stop()
@@ -656,12 +664,37 @@ func (sc *SyncerCmd) clusterRenew(ctx context.Context, elect cluster.Election) e
 	return err
 }
 
-func (sc *SyncerCmd) clusterTicker(wait usync.WaitCloser, role cluster.ClusterRole, elect cluster.Election, input, key string) {
+// leaseHold is how long a leader may go on leading after it SENT its last successful
+// campaign / renewal : the lease as the store counts it (whole seconds, see run) minus one
+// renew interval, which is left to stop the syncer.
+func (sc *SyncerCmd) leaseHold() time.Duration {
+	cc := config.GetSyncerConfig().Cluster
+	return time.Duration(int(cc.LeaseTimeout/time.Second))*time.Second - cc.LeaseRenewInterval
+}
+
+// clusterTicker : leaseFrom is the moment the campaign that made this instance the leader was sent
+func (sc *SyncerCmd) clusterTicker(wait usync.WaitCloser, role cluster.ClusterRole, elect cluster.Election, input, key string, leaseFrom time.Time) {
 	if wait.IsClosed() {
 		return
 	}
 	ticker := time.NewTicker(config.GetSyncerConfig().Cluster.LeaseRenewInterval)
 	defer ticker.Stop()
+
+	// A leader must have stopped before its lease can be taken over, also when a renewal
+	// does not return (the election client has no deadline of its own).
+	var lease *time.Timer
+	if role == cluster.RoleLeader {
+		lease = time.AfterFunc(time.Until(leaseFrom.Add(sc.leaseHold())), func() {
+			sc.logger.Errorf("lease is not renewed in time : key(%s)", key)
+			wait.Close(errors.Join(cluster.ErrNotLeader, syncer.ErrBreak))
+		})
+		defer lease.Stop()
+	}
+
+	type tickResult struct {
+		changed bool
+		err     error
+	}
 	for {
 		select {
 		case <-wait.Context().Done():
@@ -669,34 +702,49 @@ func (sc *SyncerCmd) clusterTicker(wait usync.WaitCloser, role cluster.ClusterRo
 		case <-ticker.C:
 		}
 
-		changed, err := func() (bool, error) {
-			if role == cluster.RoleLeader {
-				err := util.Retry(func() error {
-					return sc.clusterRenew(wait.Context(), elect)
-				}, 2)
-				if err != nil {
-					sc.logger.Errorf("renew error : key(%s), err(%v)", key, err)
-					return false, err
-				}
-			} else if role == cluster.RoleFollower {
-				role, err := sc.clusterCampaign(wait.Context(), elect)
-				if err != nil {
-					sc.logger.Errorf("campaign error : key(%s), err(%v)", key, err)
-					return false, err
-				}
+		sentAt := time.Now()
+		result := make(chan tickResult, 1)
+		usync.SafeGo(func() {
+			changed, err := func() (bool, error) {
 				if role == cluster.RoleLeader {
-					sc.logger.Infof("campaign : key(%s), new_role(%s)", key, role.String())
-					roleChangeCounter.Inc(input)
-					return true, nil
+					err := util.Retry(func() error {
+						return sc.clusterRenew(wait.Context(), elect)
+					}, 2)
+					if err != nil {
+						sc.logger.Errorf("renew error : key(%s), err(%v)", key, err)
+						return false, err
+					}
+				} else if role == cluster.RoleFollower {
+					role, err := sc.clusterCampaign(wait.Context(), elect)
+					if err != nil {
+						sc.logger.Errorf("campaign error : key(%s), err(%v)", key, err)
+						return false, err
+					}
+					if role == cluster.RoleLeader {
+						sc.logger.Infof("campaign : key(%s), new_role(%s)", key, role.String())
+						roleChangeCounter.Inc(input)
+						return true, nil
+					}
 				}
-			}
-			return false, nil
-		}()
-		if err != nil {
-			wait.Close(errors.Join(err, syncer.ErrBreak))
+				return false, nil
+			}()
+			result <- tickResult{changed, err}
+		}, nil)
+
+		var res tickResult
+		select {
+		case <-wait.Context().Done():
+			return
+		case res = <-result:
 		}
-		if changed {
+		if res.err != nil {
+			wait.Close(errors.Join(res.err, syncer.ErrBreak))
+		}
+		if res.changed {
 			wait.Close(nil)
+		}
+		if res.err == nil && lease != nil {
+			lease.Reset(time.Until(sentAt.Add(sc.leaseHold())))
 		}
 	}
 }
